@@ -291,4 +291,15 @@ Proof.
   - unfold einsum_shape. cbn [map]. unfold dn. cbn [fst map]. rewrite (dn_shape2 G a 0 1 Ta), (dn_shape2 G m 1 2 Tm).
     constructor; [exact Hi|]. constructor; [exact Hk|constructor].
 Qed.
+
+(** the main theorem with the hypothesis spelled out *)
+Theorem einsum_model_typed_explicit G genabled next ts inputs output p :
+  ctx_good G -> ctx_below G next ->
+  Forall2 (fun (t : stensor) inp => wf R (st_pt t) /\ tys G (vaxes (st_pt t)) (map lty inp) /\ st_ok t) ts inputs ->
+  einsum_model o veqb genabled next ts inputs output = Ok p ->
+  forall oidx, Forall2 lt oidx (einsum_shape (map (dn (R:=R)) (map st_pt ts)) inputs output) ->
+  denote R p oidx = einsum_dense o (map (dn (R:=R)) (map st_pt ts)) inputs output oidx.
+Proof.
+  intros CG CB Fo. apply (einsum_model_typed G). split; [exact CG|exact CB|exact Fo].
+Qed.
 End TypedMain.
